@@ -55,6 +55,11 @@ def oracle (name : String) (ts : List String) : Option Bool :=
       let (n, ts) ← pNat ts
       let (parts, _) ← pMany pB n ts
       pure (decide (SplitSpec m parts))
+  | "weld_unweld" => do     -- theorem weld_unweld: same per-corner keys, in order, for weld m and weld (unweld m)
+      let (nm, ts) ← pTok ts; let (pw, ts) ← pNat ts
+      let (w, ts) ← pB ts; let (w', _) ← pB ts
+      let keys := fun (x : MB) => (x.cornersOf ⟨3, nm⟩).map (List.map (Option.map fun p => weldKey pw (unbits p)))
+      pure (decide (keys w' = keys w) && (keys w).isSome)
   | "same_mesh" => do
       let (m, ts) ← pB ts; let (o, _) ← pB ts
       pure (decide (m = o))
